@@ -128,6 +128,7 @@ PROPS["C16"] = dict(
     trusted=["K-nearest container abstracted by push_incl / push_len (proved for lk_push, true of kn_push)", "Go scheduler; chansync"],
     assumptions=["after StopTraversing without Close() the consumer keeps reading Peers (API contract); Close() releases it"],
 )
+PROPS["C16"]["extra_props"] = ["E2E"]      # end-to-end composition announce owner <-> server (Props/E2E.v)
 PROPS["C12"]["engines"] = ["bep44", "server", "lookups"]
 PROPS["C12"]["rule"] += ("; lookups engine: real getput.Get / Put against simulated nodes with real ed25519 keys answering genuine / forged-value / "
                          "forged-seq / wrong-signer / wrong-key / other-salt / bit-flip / no-sig / key-without-seq / reused-signature / immutable "
